@@ -157,7 +157,7 @@ def cfg_facts(f):
             stack.pop()
     reducible = all(dom[u] >> v & 1 for u, v in retreating)
     facts = {"blocks": n, "reducible": reducible, "back_edges": len(retreating), "self_loop": False,
-             "multi_exit_loop": False, "exit_in_loop": False, "loops": 0, "nested": 0, "shared_header": False,
+             "multi_exit_loop": False, "exit_targets_2": False, "loops": 0, "nested": 0, "shared_header": False,
              "no_exit": False}
     rets = [u for u in range(n) if not sc[u]]
     facts["no_exit"] = not rets
@@ -219,13 +219,13 @@ def cfg_facts(f):
                 facts["shared_header"] = True
             exits = set()
             for x in body:
-                if not sc[x]:
-                    facts["exit_in_loop"] = True
-                    exits.add(-1)
                 for y in sc[x]:
                     if y not in body:
                         exits.add(y)
             if len(exits) > 1:
+                facts["exit_targets_2"] = True
+            # exit targets the loop header does not dominate: candidates for the block following the loop
+            if len([y for y in exits if not dom[y] >> hd & 1]) > 1:
                 facts["multi_exit_loop"] = True
         facts["loops"] = len(loops)
         for a in loops:
@@ -482,7 +482,8 @@ def prepare_module(module, argv, mon, case, kind, replay=None, reducible_require
     reducible = all(x["reducible"] for x in facts.values())
     for x in facts.values():
         mon.count("cfg", "reducible" if x["reducible"] else "irreducible")
-        for k in ("self_loop", "multi_exit_loop", "exit_in_loop", "shared_header", "no_exit"):
+        for k in ("self_loop", "multi_exit_loop", "exit_targets_2", "shared_header", "no_exit",
+                  "unmerged_branch_before_loop", "phi_backedge_cjump", "same_target_cjump"):
             if x[k]:
                 mon.count("cfg", k)
         if x["nested"]:
@@ -725,7 +726,8 @@ CFG_AVOID = [
     # (finding key, fact, what)
     ("structure-same-target-cjump-asserts", "same_target_cjump", "conditional jump with identical targets"),
     ("structure-nested-loop-miscompiled", "nested", "nested loops"),
-    ("structure-loop-with-two-exit-targets-rejected", "multi_exit_loop", "loop with more than one exit target"),
+    ("structure-loop-with-two-exit-targets-rejected", "multi_exit_loop",
+     "loop with two exit targets its header does not dominate"),
     ("structure-duplicated-code-loses-loop", "unmerged_branch_before_loop",
      "loop reachable from both arms of a branch that has no merge block of its own"),
     ("wasm-phi-copies-before-conditional-jump", "phi_backedge_cjump",
@@ -1288,4 +1290,180 @@ def run_shard(spec):
     return mon.result()
 
 
-PROBES = {}
+# --------------------------------------------------------------------------
+# witnesses of the known findings
+
+
+def _probe(build):
+    def run():
+        mon = Mon({"maxviol": 5})
+        module, argv = build()
+        prepare_module(module, argv, mon, {"id": "probe"}, "probe")
+        flush(mon)
+        if mon.viol:
+            return mon.viol[0]["summary"]
+        if mon.inconclusive:
+            raise RuntimeError(mon.inconclusive[0])
+        if not mon.evals:
+            raise RuntimeError("probe made no comparison (%r)" % (mon.disc,))
+        return None
+    return run
+
+
+def _unary(src, dst, make, vecs):
+    """f(src a) -> dst : make(ir, block, a) builds the value to return"""
+    def build():
+        from ppci import ir
+        m = ir.Module("p")
+        f, (a,), b = _fn(m, "f", ir.get_ty(dst), [ir.get_ty(src)])
+        b.add_instruction(ir.Return(make(ir, b, a)))
+        return m, {"f": vecs}
+    return build
+
+
+def _cast_probe(src, dst, vecs):
+    def make(ir, b, a):
+        return b.add_instruction(ir.Cast(a, "t", ir.get_ty(dst))) or b.instructions[-1]
+    return _unary(src, dst, make, vecs)
+
+
+def _b_data():
+    from ppci import ir
+    m = ir.Module("p")
+    g = ir.Variable("g", ir.Binding.GLOBAL, 4, 4, value=b"\x2a\x00\x00\x00")
+    m.add_variable(g)
+    f, _, b = _fn(m, "f", ir.i32, [])
+    v = ir.Load(g, "v", ir.i32)
+    b.add_instruction(v)
+    b.add_instruction(ir.Return(v))
+    return m, {"f": [[]]}
+
+
+def _b_binop(tyname, op, vecs):
+    def build():
+        from ppci import ir
+        ty = ir.get_ty(tyname)
+        m = ir.Module("p")
+        f, (a, b2), b = _fn(m, "f", ty, [ty, ty])
+        t = ir.Binop(a, op, b2, "t", ty)
+        b.add_instruction(t)
+        b.add_instruction(ir.Return(t))
+        return m, {"f": vecs}
+    return build
+
+
+def _b_inv():
+    from ppci import ir
+    m = ir.Module("p")
+    f, (a,), b = _fn(m, "f", ir.i32, [ir.i32])
+    t = ir.Unop("~", a, "t", ir.i32)
+    b.add_instruction(t)
+    b.add_instruction(ir.Return(t))
+    return m, {"f": [[5], [-1]]}
+
+
+def _b_narrow():
+    """(u8) 200 + 100 wraps to 44, which is < 100"""
+    from ppci import ir
+    m = ir.Module("p")
+    f, (a, b2), b = _fn(m, "f", ir.i32, [ir.u8, ir.u8])
+    t = ir.Binop(a, "+", b2, "t", ir.u8)
+    b.add_instruction(t)
+    yes, no = ir.Block("yes"), ir.Block("no")
+    f.add_block(yes)
+    f.add_block(no)
+    b.add_instruction(ir.CJump(t, "<", b2, yes, no))
+    one = ir.Const(1, "one", ir.i32)
+    yes.add_instruction(one)
+    yes.add_instruction(ir.Return(one))
+    zero = ir.Const(0, "zero", ir.i32)
+    no.add_instruction(zero)
+    no.add_instruction(ir.Return(zero))
+    return m, {"f": [[200, 100], [1, 2]]}
+
+
+def _b_blob():
+    from ppci import ir
+    m = ir.Module("p")
+    f, (x,), b = _fn(m, "f", ir.i32, [ir.i32])
+    a1 = ir.Alloc("a1", 8, 4)
+    b.add_instruction(a1)
+    p1 = ir.AddressOf(a1, "p1")
+    b.add_instruction(p1)
+    a2 = ir.Alloc("a2", 8, 4)
+    b.add_instruction(a2)
+    p2 = ir.AddressOf(a2, "p2")
+    b.add_instruction(p2)
+    four = ir.Const(4, "four", ir.ptr)
+    b.add_instruction(four)
+    q1 = ir.Binop(p1, "+", four, "q1", ir.ptr)
+    b.add_instruction(q1)
+    b.add_instruction(ir.Store(x, p1))
+    b.add_instruction(ir.Store(x, q1))
+    b.add_instruction(ir.CopyBlob(p2, p1, 8))
+    q2 = ir.Binop(p2, "+", four, "q2", ir.ptr)
+    b.add_instruction(q2)
+    v = ir.Load(q2, "v", ir.i32)
+    b.add_instruction(v)
+    b.add_instruction(ir.Return(v))
+    return m, {"f": [[5], [-9]]}
+
+
+def _b_bigconst():
+    from ppci import ir
+    m = ir.Module("p")
+    f, _, b = _fn(m, "f", ir.u64, [])
+    c = ir.Const((1 << 64) - 1, "c", ir.u64)
+    b.add_instruction(c)
+    b.add_instruction(ir.Return(c))
+    return m, {"f": [[]]}
+
+
+def _b_phi():
+    """do { i2 = i + 1 } while (i2 < n); return i   -- the phi's value of the last iteration"""
+    from ppci import ir
+    m = ir.Module("p")
+    f, (n,), b = _fn(m, "f", ir.i32, [ir.i32])
+    head, ex = ir.Block("head"), ir.Block("ex")
+    f.add_block(head)
+    f.add_block(ex)
+    z = ir.Const(0, "z", ir.i32)
+    b.add_instruction(z)
+    one = ir.Const(1, "one", ir.i32)
+    b.add_instruction(one)
+    b.add_instruction(ir.Jump(head))
+    i = ir.Phi("i", ir.i32)
+    head.add_instruction(i)
+    i2 = ir.Binop(i, "+", one, "i2", ir.i32)
+    head.add_instruction(i2)
+    i.set_incoming(b, z)
+    i.set_incoming(head, i2)
+    head.add_instruction(ir.CJump(i2, "<", n, head, ex))
+    ex.add_instruction(ir.Return(i))
+    return m, {"f": [[1], [4], [0]]}
+
+
+def _b_skel(name):
+    def build():
+        return build_skeleton(name, CATALOGUE[name]), {"f": [[x] for x in SKEL_ARGS]}
+    return build
+
+
+PROBES = {
+    "wasm-data-segment-arguments": _probe(_b_data),
+    "wasm-i64-bitwise-shift-unsupported": _probe(_b_binop("i64", "&", [[12, 10], [-1, 1 << 40]])),
+    "wasm-invert-and-unsigned-negate-unsupported": _probe(_b_inv),
+    "wasm-cast-pairs-unsupported": _probe(_cast_probe("i8", "i64", [[-3], [100]])),
+    "wasm-float-to-int-rounds-to-nearest": _probe(_cast_probe("f64", "i32", [[2.7], [-2.7], [0.5], [1.5]])),
+    "wasm-signed-to-u64-zero-extends": _probe(_cast_probe("i32", "u64", [[-1], [7]])),
+    "wasm-u32-to-f32-invalid-opcode": _probe(_cast_probe("u32", "f32", [[3], [4000000000]])),
+    "wasm-narrow-arithmetic-not-wrapped": _probe(_b_narrow),
+    "wasm-blob-copy-unsupported": _probe(_b_blob),
+    "wasm-integer-immediate-out-of-signed-range": _probe(_b_bigconst),
+    "wasm-phi-copies-before-conditional-jump": _probe(_b_phi),
+    "structure-same-target-cjump-asserts": _probe(_b_skel("same-target-cjump-in-loop")),
+    "structure-nested-loop-miscompiled": _probe(_b_skel("nested-loops")),
+    "structure-loop-with-two-exit-targets-rejected": _probe(_b_skel("nested-break-outer")),
+    "structure-duplicated-code-loses-loop": _probe(_b_skel("early-return-then-loop")),
+    "structure-irreducible-cfg-not-rejected": _probe(_b_skel("two-entry-loop")),
+}
